@@ -16,6 +16,14 @@ from .c18 import (FluffConfig, SQLBaseError, LintedFile, LintedDir, LintingResul
 from . import c18 as _c18
 
 PROP = "C22"
+# Not `proof`: one generated obligation (_stdin_fix's exit-code clause) fails on the unchanged tree and is a recorded
+# known finding, so discharged != obligations.  Everything else listed in the evidence is discharged by z3.
+LEVEL = "other"
+EXPLANATION = ("Contract-based deductive verification (pyvc: VCs from the real source, z3) of the exit-code building blocks: "
+               "LintedDir.stats, LintingResult.stats, PathAndUserErrorHandler.__exit__ (both variants), _handle_unparsable, "
+               "LintedDir.discard_fixes_..., _stdin_fix.  All obligations are discharged except the exit-code clause of "
+               "_stdin_fix on two paths, which is a genuine, recorded defect (known_findings.json): that is why this is not "
+               "labelled `proof`.  Counts: coverage.obligations / coverage.discharged / coverage.failed_obligations.")
 
 LintedDir2 = ref_class("sqlfluff.core.linter.linted_dir:LintedDir", _num_files=INT, _num_clean=INT, _num_unclean=INT,
                        _num_violations=INT)
